@@ -276,6 +276,9 @@ def judge(ctx, obs):
 
 
 def s2c(ctx, cases, tag):
+    import json
+    # TLC's workers print the cases in a schedule-dependent order: sort them (spellings, samples depend on the seed only)
+    cases = sorted(cases, key=lambda c: json.dumps(c, sort_keys=True))
     for i, c in enumerate(cases):
         c['spelling'] = i % 6
     out = pmap(s2c_chunk, cases, chunk=400)
